@@ -9,7 +9,83 @@ import numpy as np
 from . import zx
 
 
+HISTORY = False   # when on, build() first constructs sibling instances (each differs from the requested one in one parameter)
+
+
+class history:
+    """`with shipped.history():` - every build() is preceded, in this process, by the construction of sibling instances
+    of the same class whose parameters differ from the requested ones in exactly one field (larger and smaller / other
+    choice).  What the checks then establish for the requested instance holds for an instance created *after* others:
+    per-process state (module-level tables, memoised spaces) keyed on too few parameters shows up as a violation."""
+
+    def __enter__(self):
+        global HISTORY
+        self.prev, HISTORY = HISTORY, True
+
+    def __exit__(self, *a):
+        global HISTORY
+        HISTORY = self.prev
+
+
+def sibling_kwargs(name, kw):
+    import dataclasses
+    # the configuration dataclass alone (defaults + requested values): the requested instance itself must not be built
+    # before its siblings
+    cfg = problem_class(name, kw).Config(**kw)
+    base = {f.name: getattr(cfg, f.name) for f in dataclasses.fields(cfg) if f.name != "_target_"}
+    out = []
+    for k, v in base.items():
+        alts = []
+        if isinstance(v, bool):
+            alts = [not v]
+        elif isinstance(v, int):
+            alts = [v + 1, v + 4, v - 1]
+        elif isinstance(v, float):
+            alts = [v * 1.5, v * 0.5]
+        elif isinstance(v, str):
+            alts = [x for x in ("fifo", "lifo") if x != v]
+        elif isinstance(v, (tuple, list)) or hasattr(v, "__len__"):
+            vv = tuple(float(x) for x in v)
+            alts = [tuple(x * 1.5 for x in vv), tuple(x * 0.5 + 0.05 for x in vv)] if vv else []
+        for a in alts:
+            d = dict(base)
+            d[k] = a
+            if name == "mirjalili" and k == "max_useful_life":
+                m = a
+                d["useful_life_at_arrival_distribution_c_0"] = tuple(0.5 + 0.25 * i for i in range(m - 1))
+                d["useful_life_at_arrival_distribution_c_1"] = tuple(0.1 * (i + 1) for i in range(m - 1))
+            out.append((k, d))
+    return out
+
+
+BUILT_SIBLINGS = []
+
+
+def problem_class(name, kw=None):
+    from mdpax.problems import Forest
+    from mdpax.problems.perishable_inventory.de_moor_single_product import DeMoorSingleProductPerishable
+    from mdpax.problems.perishable_inventory.hendrix_two_product import HendrixTwoProductPerishable
+    from mdpax.problems.perishable_inventory.mirjalili_platelet import MirjaliliPlateletPerishable
+    if name == "mirjalili" and kw is not None:
+        m = kw.get("max_useful_life", 3)
+        kw.setdefault("useful_life_at_arrival_distribution_c_0", tuple(0.5 + 0.25 * i for i in range(m - 1)))
+        kw.setdefault("useful_life_at_arrival_distribution_c_1", tuple(0.1 * (i + 1) for i in range(m - 1)))
+    return {"forest": Forest, "de_moor": DeMoorSingleProductPerishable, "hendrix": HendrixTwoProductPerishable, "mirjalili": MirjaliliPlateletPerishable}[name]
+
+
 def build(name, **kw):
+    global HISTORY
+    if HISTORY:
+        HISTORY = False
+        try:
+            for k, d in sibling_kwargs(name, dict(kw)):
+                try:
+                    build(name, **d)
+                    BUILT_SIBLINGS.append((name, k))
+                except Exception:
+                    pass   # not a valid parameter set (validation) or too large: not part of the history
+        finally:
+            HISTORY = True
     from mdpax.problems import Forest
     from mdpax.problems.perishable_inventory.de_moor_single_product import DeMoorSingleProductPerishable
     from mdpax.problems.perishable_inventory.hendrix_two_product import HendrixTwoProductPerishable
